@@ -30,7 +30,7 @@ import tempfile
 import time
 import zlib
 
-from common import coqrun, enc
+from common import coqrun, e2e, enc
 
 ID = "C20"
 PROP_FILE = "props/C20.v"
@@ -84,8 +84,8 @@ ASSUMPTIONS = [
     "identify exported slices by uid, as the observation does)",
     "no part of a sequence carries an args.Peer that int() rejects (otherwise the run aborts with ValueError, "
     "C20_error_branch)",
-    "the job ids crc32(path) % 10000 of the input files of one run are pairwise distinct (generator constraint); two "
-    "files with the same id are one job for the tool",
+    "input paths of one run are pairwise distinct strings (the same path listed twice is one job for the tool); paths "
+    "whose crc32 % 10000 collide are included: the tool gives the later one the next free id (fix 'unique job ids')",
     "end to end, a slice is a part of sequence (input file, number) by the name the run without the option exports it "
     "with; options that rewrite names between the comm stages and the export (-R, -O async) are outside the domain",
 ]
@@ -316,12 +316,18 @@ def write_files(sc, d):
     """one FLEX file per scenario file; names re-rolled until the job ids crc32(path) % 10000 are pairwise distinct
     (or equal to the id the scenario asks for with "job_id")."""
     paths, ids = [], set()
+    layout = sc.get("layout", "flat")
     for k, f in enumerate(sc["files"]):
         salt = 0
         while True:
             p = os.path.join(d, f"rank{f['pid']}_job{k}_{salt}.json")
+            if layout == "dirs":         # one directory per input, the SAME base name everywhere (rank0/trace.json, ...)
+                os.makedirs(os.path.join(d, f"in{k}_{salt}"), exist_ok=True)
+                p = os.path.join(d, f"in{k}_{salt}", "flex_trace.json")
             jid = zlib.crc32(p.encode()) % 10000
             want = f.get("job_id")
+            if layout == "collide" and k == 1 and want is None:
+                want = zlib.crc32(paths[0].encode()) % 10000     # two different inputs of one run share a job id
             if (want is None and jid not in ids) or (want is not None and jid == want):
                 ids.add(jid)
                 break
@@ -363,6 +369,12 @@ def _slices(path):
     return [x for x in res["traceEvents"] if x.get("ph") == "X"]
 
 
+_LOG_TEXT = "\n".join([
+    "[DeepRT] ===== Perf BEGIN =====", "====== Perf Summary ======", "~~~~ Ideal/Total Cycles ~~~~", "-" * 91,
+    "Name" + " " * 76 + "Ideal Cy.", "-" * 91, "relu_3-opCatScalar".ljust(80) + "155500         ", "-" * 91,
+    "Total\t\t\t\t\t\t\t\t\t\t155500", "-" * 91, "====== Perf Summary End ======", "[DeepRT] ===== Perf END =====", ""])
+
+
 def drive_e2e(sc, workdir=None):
     """three runs on the same files: plain, --comm_summarize_seq, --comm_summarize_seq -I.
     Returns dict(a=slices|Err, b=slices|Err, c=slices|Err, coll=[snapshot events], appl=[snapshot events], jobs=[ids])"""
@@ -370,8 +382,13 @@ def drive_e2e(sc, workdir=None):
     try:
         paths = write_files(sc, d)
         inp = ",".join(paths)
-        res = {"jobs": [zlib.crc32(p.encode()) % 10000 for p in paths]}
+        res = {"jobs": e2e.job_ids(paths), "path_hashes": [zlib.crc32(p.encode()) % 10000 for p in paths]}
         base = ["-i", inp, "-D", "0", "--disable_tb"] + list(sc.get("opts", []))
+        if "@LOG" in base:          # a compiler log switches the utilization stages on (default counter rcu_util)
+            log = os.path.join(d, "compiler.log")
+            with open(log, "w") as fh:
+                fh.write(_LOG_TEXT)
+            base[base.index("@LOG")] = log
         for key, extra in (("a", []), ("b", ["--comm_summarize_seq"]), ("c", ["--comm_summarize_seq", "-I"])):
             outp = os.path.join(d, f"out_{key}.json")
             err = _run_acelyzer(base + ["-o", outp] + extra)
@@ -412,6 +429,7 @@ def oracle_e2e(sc, res):
                 if g is not None:
                     groups.setdefault((k, g), []).append(e["uid"])
     facts = old_key_facts({(res["jobs"][k], g) for (k, g) in groups})
+    facts["path_hashes_collide_within_run"] = len(set(res["path_hashes"])) < len(res["path_hashes"])
     part_uids = {u for v in groups.values() for u in v}
     for uid in sorted(set(a_by) | set(b_by), key=str):
         if uid in part_uids:
@@ -569,7 +587,10 @@ def gen_e2e(r):
         files.append({"pid": 0, "events": [{"uid": uid, "ph": "X", "name": "SenRdma_1", "job": -1, "pid": 0, "tid": 1,
                                             "ts": 1.0, "dur": 1.0, "peer": ["none"], "peers": None}]})
     # the property quantifies over runs "with --comm_summarize_seq": other options may be on as well
-    return {"kind": "e2e", "files": files, "opts": r.choice([[], [], ["--flow"], ["--keep_names"]])}
+    # ... and where the input files live is free: one directory, one directory each with equal base names, or two
+    # paths that happen to share the 4-digit job id
+    return {"kind": "e2e", "files": files, "opts": r.choice([[], [], ["--flow"], ["--keep_names"], ["-c", "@LOG"]]),
+            "layout": r.choice(["flat"] * 6 + ["dirs", "dirs", "collide"])}
 
 
 def adversarial_names():
@@ -684,7 +705,7 @@ def _record(case, f, obs):
         observed = {k: (repr(v) if isinstance(v, enc.Err) else [project(x) for x in v])
                     for k, v in obs.items() if k in ("a", "b")}
         observed["jobs"] = obs.get("jobs")
-    sig = {k: v for k, v in f.items() if k in ("kind", "old_key_collision", "old_key_zero", "error")}
+    sig = {k: v for k, v in f.items() if k in ("kind", "old_key_collision", "old_key_zero", "error", "path_hashes_collide_within_run")}
     return {"input": case, "expected": {k: v for k, v in f.items() if k not in sig or k == "kind"},
             "observed": observed, "signature": sig}
 
